@@ -61,7 +61,9 @@ try:
         res["demo_cmd"] = cmd.replace(WT, "<tree>")
     checks = {}
     for p in props:
-        for tier in ("quick", "thorough"):
+        # (the thorough tier after a quick miss costs 10-20 minutes per property:
+        # only on request)
+        for tier in (("quick", "thorough") if os.environ.get("SEEDVERIFY_THOROUGH") else ("quick",)):
             t0 = time.time()
             r = sh(f"cd /verif && VERIF_REPO={WT} bin/vcheck run {p} --tier {tier} --no-evidence", 3600)
             sigs = sorted(set(re.findall(r"signature: (\S+)", r.stdout) + [x.replace(' ', '_') for x in re.findall(r"data race (C18\S* \S+)", r.stdout)]))
